@@ -354,7 +354,8 @@ theorem inv_reachable (sched : List Choice) : Inv (run senderProgram procProgram
 `Generated.ack*` are regenerated from service/service.go and service/process.go on every run
 (extract/facts_acklock.go: the calls `ackmu.Lock` 1, `defer ackmu.Unlock` 2, `writeMessage` 3,
 `verifAckWindow` 4, `sess.<queue>.Wait` 5, `ackmu.Unlock` 6, `sendPublish` 7, `onComplete` 8,
-`Ackqueue.Ack` 9, `ack` 10, `processAcked` 11, in source order). -/
+`Ackqueue.Ack` 9, `ack` 10, `processAcked` 11, in source order; `ackIrregular` counts such calls
+inside function literals, deferred or started with `go`). -/
 
 def SOp.code : SOp → Nat
   | .lock => 1 | .write => 3 | .window => 4 | .register => 5 | .unlock => 6
@@ -404,6 +405,7 @@ theorem facts_senders :
     publishInlined "QosExactlyOnce" = deferredShape (senderProgram.map SOp.code) ∧
     publishQos0 = some [3, 4, 8] ∧
     Mqtt.Generated.ackSendPublishCases.map (·.1) = ["QosAtMostOnce", "QosAtLeastOnce", "QosExactlyOnce"] ∧
+    Mqtt.Generated.ackSendPublishSwitches = 1 ∧
     Mqtt.Generated.ackSendPublishCallers = ["publish", "publish"] ∧
     Mqtt.Generated.ackLockSites = ["ack", "ping", "publish", "subscribe", "unsubscribe"] ∧
     Mqtt.Generated.ackDeferUnlockSites = Mqtt.Generated.ackLockSites ∧
@@ -423,7 +425,8 @@ theorem facts_processor :
     Mqtt.Generated.ackAckSites = ["ack"] ∧
     Mqtt.Generated.ackHelperCallers = List.replicate 7 "processIncoming" ∧
     Mqtt.Generated.ackProcessAckedCallers = List.replicate 6 "processIncoming" ∧
-    Mqtt.Generated.ackProcessIncomingOutside = 0 ∧
+    Mqtt.Generated.ackProcessIncomingOutside = 0 ∧ Mqtt.Generated.ackProcessIncomingSwitches = 1 ∧
+    Mqtt.Generated.ackIrregular = 0 ∧
     Mqtt.Generated.ackProcessIncoming.map (·.1) =
       ["PubackMessage", "PubrecMessage", "PubrelMessage", "PubcompMessage", "SubackMessage", "UnsubackMessage",
        "PingrespMessage"] ∧
